@@ -1296,6 +1296,33 @@ Proof.
   repeat split; try (vm_compute; reflexivity). intro H; discriminate.
 Qed.
 
+(* ... and this reaches certificates inside RFC 5280's profile: an rfc822Name is a Mailbox (RFC 2821
+   4.1.2) whose local part may be a quoted string, and a quoted string may contain ", ".  The report
+   of a certificate with the single name  "a, evil.example, b"@x.example  reads back as three names, one
+   of which - evil.example - is not encoded.  Every other clause of enc_ok holds (the content without
+   its SANs is well-formed).  Not repaired: known finding C03-separator. *)
+Definition witness_separator : enc_cert :=
+  {| e_version := 3; e_serial := 77; e_subject := bs "CN=leaf.example"; e_issuer := bs "CN=Example CA";
+     e_not_before := 1704067200; e_not_after := 1735689600; e_spki := SBare [1; 3; 101; 112];
+     e_basic := None; e_key_usage := None; e_ekus := None;
+     e_sans := Some [GN 1 ([34] ++ bs "a, evil.example, b" ++ [34] ++ bs "@x.example")];
+     e_ski := None; e_aki := None; e_sig := SigKnown 16 |}.
+
+Theorem separator_invents_name : exists c v,
+  enc_ok {| e_version := e_version c; e_serial := e_serial c; e_subject := e_subject c; e_issuer := e_issuer c;
+            e_not_before := e_not_before c; e_not_after := e_not_after c; e_spki := e_spki c;
+            e_basic := e_basic c; e_key_usage := e_key_usage c; e_ekus := e_ekus c; e_sans := None;
+            e_ski := e_ski c; e_aki := e_aki c; e_sig := e_sig c |} = true /\
+  read_back (describe (x509_spec c)) = Some v /\
+  In (bs "evil.example") (w_sans v) /\
+  ~ In (bs "evil.example") (map san_text (opt_list (e_sans c))).
+Proof.
+  exists witness_separator. eexists. split; [vm_compute; reflexivity|]. split; [vm_compute; reflexivity|].
+  split.
+  - cbn [w_sans]. right. left. reflexivity.
+  - cbn. intros [H|[]]. discriminate H.
+Qed.
+
 (* ================================================================== *)
 (* M. the hypotheses are met by non-trivial contents                   *)
 (* ================================================================== *)
